@@ -79,6 +79,8 @@ def run(ch: Checker) -> None:
                      'or the id stamped on a task created from self.works', 4)
     ch.rule('C05.8', 'who may close: a socket owned by a work (upstream / client / work connection) is closed only from the teardown callbacks (shutdown, on_client_connection_close), '
                      'i.e. after the executor unregistered the work\'s descriptors', 3)
+    ch.rule('C05.10', 'admission is not starved: every way through Threadless._run_once either established that no new work is available or calls receive_from_work_queue() -- '
+                      'a connection that keeps its descriptors ready on every tick must not keep the work queue from being read', 1)
     ch.rule('C05.7', 'an integer parsed from wire bytes and used as a slice bound in ChunkParser/HttpParser is range-checked (a comparison with 0 that raises or leaves) '
                      'between the conversion and the use', 1)
 
@@ -236,6 +238,28 @@ def run(ch: Checker) -> None:
                                      'outside any handler and the worker stops' % badv[0][1], witness=badv[0][2])
             else:
                 ch.ok('C05.6', f, c, 'id is known to be in self.works: %s' % verdicts[0][1])
+
+    # ---- C05.10 admission on every tick
+    ro = prog.own_method('Threadless', '_run_once')
+    gro = cfg_of(ro, prog, exc_edges=False)
+    bad10 = None
+    n10 = 0
+    for p in fpaths(gro):
+        ch.paths += 1
+        if p.exit_kind != 'return':
+            continue
+        n10 += 1
+        fdp = allfacts(p)
+        called = any(isinstance(c, ast.Call) and attr_chain(c.func) == 'self.receive_from_work_queue' for i, nd, lab in p.executed() if nd.ast is not None and nd.kind in ('stmt', 'test')
+                     for c in walk_no_nested(nd.ast))
+        none_avail = any(v is False and k.startswith('new_work_available') or (v is False and '_selected_events()' in k and k.endswith('[1]')) for k, v in fdp.items())
+        if not called and not none_avail:
+            bad10 = ('a way through _run_once neither checks that no new work is available nor reads the work queue: while some connection is ready on every tick (an upstream at EOF whose '
+                     'client does not read, a busy tunnel) newly accepted connections are never admitted and the shutdown signal is never seen', p.describe(18))
+    ch.check(bad10 is None and n10 > 0, 'C05.10', ro, 'admission on every tick', 'work queue read, or known empty, on all %d path(s)' % n10, bad10[0] if bad10 else 'no path', witness=bad10[1] if bad10 else None)
+
+    # ---- C05.9 (shared)
+    ch.import_rules('C10', {'C10.2': 'C05.9'}, 'descriptors of a torn-down work that stay registered make the next connection with the same numbers unpollable')
 
     # ---- C05.8 who may close
     from .common import who_may_close_check
